@@ -27,7 +27,9 @@ def load_checks():
     return out
 
 
-CHECKS = load_checks()
+# properties whose check is complete and quiet on the unchanged tree (the lead adds an id here after running it on several seeds)
+READY = [l.strip() for l in open(os.path.join(HERE, 'ready.txt')) if l.strip() and not l.startswith('#')]
+CHECKS = {k: v for k, v in load_checks().items() if k in READY}
 
 NOT_APPLICABLE = {}
 
